@@ -52,4 +52,7 @@ def run(tier="quick", seed=0, use_cache=True):
     t = setops.py_table("difference")
     res.samples = [{"situation": k, "action": list(v)} for k, v in list(t.items())[3:9]]
     res.units = {"translation_units": len(out), "python_functions": 3}
+    from ..rules import cmpmacro
+    cmpmacro.extend(res, use_cache, ("TEST_KEY_SET_OR",))
+    res.explanation += " CMP-MACRO: the key comparison the table's sign atom stands for is a genuine three-way comparison in every family."
     return res
